@@ -380,7 +380,7 @@ func (p *VipnodePool) requestHosts(ctx context.Context, nodeID string, numReques
 	}
 
 	var hosts []store.Node
-	if numRequestHosts == 0 {
+	if numRequestHosts <= 0 {
 		// Nothing left to do
 		return hosts, nil
 	}
@@ -414,6 +414,11 @@ func (p *VipnodePool) requestHosts(ctx context.Context, nodeID string, numReques
 	remotes := make([]hostService, 0, len(r))
 	p.mu.Lock()
 	for _, node := range r {
+		if len(remotes) >= numRequestHosts {
+			// We asked the store for extra candidates to make up for
+			// skipped ones, never hand out more than requested.
+			break
+		}
 		if _, skip := skipPeers[node.ID]; skip {
 			// Skip peers we're already connected to, and ourself
 			continue
